@@ -625,11 +625,18 @@ C07_Accept(c, trk, call, o) ==
        THEN C03_Accept(c, trk, call, o) /\ C18_Accept(c, trk, call, o) /\ C19_Accept(c, trk, call, o)
   ELSE IF trk.img = "header" /\ (IsHdrRead(call) \/ call.op = "hacc") THEN C11_Accept(c, trk, call, o)
   ELSE TRUE
+\* "an equal tag" also in the sense of the type's own PartialEq (where the type has one)
+CloneEq(cl) == Has(cl, "eq") => cl.eq = 1
 \* C17 (build side): string tags store the text and exactly one terminating NUL
 C17_Build(c, trk, call, o) ==
   IF call.op \in {"construct", "b_set"} /\ CtorKind(call) \in {"cmdline", "bootloader", "module"}
      /\ (call.op = "construct" \/ trk.hasb)
-  THEN AcceptCtor(call, o) ELSE TRUE
+  THEN /\ AcceptCtor(call, o)
+       \* ... and a clone of the string tag carries the same text: same declared size, same bytes up to it
+       /\ (o.k = "ok" /\ Has(o.v, "clone") =>
+             LET total == IF Len(o.v.bytes) >= 8 THEN U32At(o.v.bytes, 4) ELSE 0 IN
+             EqUpTo(o.v.clone.bytes, o.v.bytes, total, FALSE) /\ CloneEq(o.v.clone))
+  ELSE TRUE
 \* the header kinds new_boxed is driven with: the crates' 8-byte tag headers, and two headers a user of the generic
 \* function may define whose size is not a multiple of 8 (12 bytes: type, size, one more word; 4 bytes: the size alone)
 NewBoxedHSize(call) == CASE call.h = "h12" -> 12 [] call.h = "h4" -> 4 [] call.h = "mb" -> 16 [] OTHER -> 8
@@ -641,8 +648,6 @@ NewBoxedHead(call, total) ==
     \* re-establishes the checksum for the new length
     [] call.h = "mb" -> HdrMagic \o call.typ \o U32Bytes(total) \o ChecksumBytes(HdrMagic, call.typ, U32Bytes(total))
     [] OTHER -> call.typ \o U32Bytes(total)
-\* "an equal tag" also in the sense of the type's own PartialEq (where the type has one)
-CloneEq(cl) == Has(cl, "eq") => cl.eq = 1
 C16_Accept(c, trk, call, o) ==
   CASE call.op = "clone_ref" ->
          \* cloning the structure found in the image: same declared size, same bytes up to it
